@@ -18,9 +18,22 @@ SimplexObs(F, s) ==
    star_set |-> {SortedSeq(t) : t \in StarC(C, s)},
    cof |-> [c \in 1..MaxDim |-> [c |-> c, t_set |-> {SortedSeq(t) : t \in CofacesC(C, s, c)}]]]
 
+(* vertex_with_same_filtration / edge_with_same_filtration / minimal_simplex_with_same_filtration: "if several ... *)
+(* the one it returns is arbitrary": the admissible answers (an empty set: null_vertex() / null_simplex() expected).  *)
+(* The minimal simplex is only judged on monotone filtrations (the documentation speaks of filtrations built with    *)
+(* make_filtration_non_decreasing).                                                                                    *)
+SameObs(F, s) ==
+  [s |-> SortedSeq(s),
+   v_set |-> {v \in s : F[{v}] = F[s]},
+   e_set |-> {SortedSeq(e) : e \in {e \in SUBSET s : Cardinality(e) = 2 /\ F[e] = F[s]}},
+   m_set |-> IF MonotoneF(F)
+             THEN {SortedSeq(t) : t \in {t \in SUBSET s : t # {} /\ F[t] = F[s] /\ \A u \in Facets(t) : F[u] # F[s]}}
+             ELSE {}]
+
 Obs(F) ==
   LET C == DOMAIN F IN
   [k_set    |-> KJ(F),
+   same_set |-> {SameObs(F, s) : s \in C},
    q_set    |-> {SimplexObs(F, s) : s \in C},
    filt     |-> [i \in DOMAIN FiltSeq(F) |-> SortedSeq(FiltSeq(F)[i])],
    filt_noinf |-> [i \in DOMAIN FiltSeqNoInf(F) |-> SortedSeq(FiltSeqNoInf(F)[i])],
